@@ -28,7 +28,7 @@ def showVal (mask : Bool) : Val → String
   | .opaque t a => if mask then "P" else s!"P{t}({showVal mask a})"
 
 def showKey : Key → String
-  | .name s => s
+  | .name s => String.ofList (s.map fun b => Char.ofNat b.toNat)
   | .const n => toString n
   | .enum d n => (if d then "D" else "B") ++ toString n
 
